@@ -206,9 +206,19 @@ func TestC26CsvRefundQuarantine(t *testing.T) {
 			me, _ := peersync.NewPeerID(a.Id)
 			ps := peersync.NewPeerSync(me, st, ln, a.Policy, nil, a.Premium)
 			pid, _ := peersync.NewPeerID(m.Id)
-			payload := []byte(`{"version":7,"assets":["BTC"],"peer_allowed":true}`)
-			ps.VerifProcessMessage(context.Background(), peersync.CustomMessage{From: pid, Type: messages.MESSAGETYPE_REQUEST_POLL, Payload: payload})
-			ps.VerifProcessMessage(context.Background(), peersync.CustomMessage{From: pid, Type: messages.MESSAGETYPE_POLL, Payload: payload})
+			// whatever the quarantined peer sends - also payloads this node cannot parse
+			for k, nmsg := 0, rapid.IntRange(1, 4).Draw(t, "psMessages"); k < nmsg; k++ {
+				payload := []byte(rapid.SampledFrom([]string{
+					`{"version":7,"assets":["BTC"],"peer_allowed":true}`,
+					`{"version":7,"assets":["BTC"],"peer_allowed":true}`,
+					`{"version":9,"assets":["BTC","DOGE"],"peer_allowed":true}`,
+					`{"version":7,"assets":["BTC"],"btc_swap_in_premium_rate_ppm":99000000}`,
+					`{"version":"7"}`, `{`, ``, `null`, `[]`, `{"version":7,"assets":[1]}`,
+				}).Draw(t, "psPayload"))
+				mt := rapid.SampledFrom([]messages.MessageType{messages.MESSAGETYPE_REQUEST_POLL, messages.MESSAGETYPE_REQUEST_POLL, messages.MESSAGETYPE_POLL}).Draw(t, "psType")
+				ps.VerifProcessMessage(context.Background(), peersync.CustomMessage{From: pid, Type: mt, Payload: payload})
+				ops = append(ops, fmt.Sprintf("ps(%d,%s)", mt, payload))
+			}
 			ps.ForcePollAllPeers(context.Background())
 			_ = ps.RequestPoll(context.Background(), pid)
 			_, gerr := st.GetPeerState(pid)
